@@ -4,6 +4,7 @@ import collections
 from hypothesis import strategies as st
 from metapype.eml import references, validate
 from metapype.eml import rule as R
+from vf.shipped import RULES
 from metapype.eml.exceptions import MetapypeRuleError
 from metapype.model.node import Node
 
@@ -30,7 +31,7 @@ REF = "references"
 
 
 def ref_rules():
-    return sorted(rn for rn, v in R.rules_dict.items() if REF in lang.spec_names(v[1]))
+    return sorted(rn for rn, v in RULES.items() if REF in lang.spec_names(v[1]))
 
 
 _full = {}
@@ -197,7 +198,7 @@ def cases(draw):
         refs[order[j]][1]["k"][0]["c"] = pre.pick(["zzMissing", "", "id", "ID0", "id0 "])
         fault = {"kind": "dangling", "position": j, "of": len(refs)}
     elif f == 2 and nid:
-        holders = [s for _, s in treegen.spec_nodes(sp) if "id" in R.rules_dict.get(T.known.get(s["n"], ""), [{}])[0]
+        holders = [s for _, s in treegen.spec_nodes(sp) if "id" in RULES.get(T.known.get(s["n"], ""), [{}])[0]
                    and "id" not in s.get("a", {}) and s["n"] != REF]
         if holders:
             h = pre.pick(holders)
